@@ -560,6 +560,67 @@ def pred_beat_fixture(case, ctx):
     return nt or _between(c[0], *cv) or (v is not None and 0 < v < 1)
 
 
+# ------------------------------------------------------------------ the definitions do not depend on the array dtype
+
+@st.composite
+def int_case(draw):
+    return {"task": draw(st.sampled_from(["beat", "onset", "alignment", "segment", "chord", "hierarchy", "melody", "melody_hop", "multipitch", "transcription",
+                                         "transcription_velocity", "tempo"])),
+            "seed": draw(st.integers(0, 10 ** 6)), "dtype": draw(st.sampled_from(["int64", "int32", "int16", "float32"])), "n": draw(st.integers(3, 12))}
+
+
+def pred_int_typed(case, ctx):
+    """Whole-second / whole-Hz annotations held in integer (or float32) arrays: every score must equal the score of the same numbers in
+    float64, whose agreement with the definitions is what the other sub-properties establish."""
+    import mir_eval
+    rs = np.random.RandomState(case["seed"])
+    n, task, dt = case["n"], case["task"], np.dtype(case["dtype"])
+    lab = lambda pool, k: (pool * k)[:k]
+    r = np.sort(rs.randint(5, 60, n))
+    e = np.sort(np.clip(r + rs.randint(-1, 2, n), 5, 100))
+    b = np.r_[0, np.cumsum(rs.randint(1, 6, n))]
+    b2 = np.unique(np.r_[0, b[-1], rs.randint(1, b[-1], max(1, n // 2))])
+    iv, iv2 = np.c_[b[:-1], b[1:]], np.c_[b2[:-1], b2[1:]]
+    f = rs.choice([0, 110, 220, 440, 440, 330], n)
+    f2 = f * rs.choice([1, 1, 2], n)
+    f2 = np.where((f == 440) & (rs.rand(n) < 0.5), 453, f2)     # 50.4 cents: a miss that a whole-cent truncation turns into a hit
+    on = np.sort(rs.randint(0, 30, n))
+    ivn = np.c_[on, on + rs.randint(1, 4, n)]
+    p = rs.choice([110, 220, 440, 453], n)
+    fr = [rs.choice([110, 220, 330, 440], rs.randint(0, 3), replace=False) for _ in range(n)]
+    calls = {
+        "beat": (mir_eval.beat.evaluate, [r, e], {}),
+        "onset": (mir_eval.onset.evaluate, [r, e], {}),
+        "alignment": (mir_eval.alignment.evaluate, [np.unique(r), np.unique(r) + rs.randint(0, 2, len(np.unique(r)))], {}),
+        "segment": (lambda a, c, **k: mir_eval.segment.evaluate(a, lab(["a", "b"], len(a)), c, lab(["a", "b", "c"], len(c)), **k), [iv, iv2], {"frame_size": 1}),
+        "chord": (lambda a, c: mir_eval.chord.evaluate(a, lab(["C", "G:7", "N"], len(a)), c, lab(["C", "A:min"], len(c))), [iv, iv2], {}),
+        "hierarchy": (lambda a, c, **k: mir_eval.hierarchy.evaluate([np.array([[a[0, 0], a[-1, 1]]], dtype=a.dtype), a], [["x"], lab(["a", "b"], len(a))], [c],
+                                                                   [lab(["a", "b", "c"], len(c))], **k), [iv, iv2], {"frame_size": 1}),
+        "melody": (mir_eval.melody.evaluate, [np.arange(n), f, np.arange(n), f2], {}),
+        "melody_hop": (mir_eval.melody.evaluate, [np.arange(n) * 2, f, np.arange(n) * 3, f2], {"hop": 1}),
+        "multipitch": (mir_eval.multipitch.evaluate, [np.arange(n), fr, np.arange(n) * 2, [x[::-1] for x in fr]], {}),
+        "transcription": (mir_eval.transcription.evaluate, [ivn, p, ivn + rs.randint(0, 2, (n, 1)), p], {}),
+        "transcription_velocity": (mir_eval.transcription_velocity.evaluate, [ivn, p, rs.randint(1, 127, n), ivn, p, rs.randint(1, 127, n)], {}),
+        "tempo": (lambda a, c: mir_eval.tempo.evaluate(a, 0.5, c), [np.array([60, 120]), np.array([61, 118])], {}),
+    }
+    fn, args, kw = calls[task]
+
+    def conv(x, t):
+        if isinstance(x, np.ndarray):
+            return x.astype(t)
+        if isinstance(x, list):
+            return [conv(y, t) for y in x]
+        return x
+    got = ctx.call(fn, *[conv(x, dt) for x in args], **kw)
+    want = ctx.call(fn, *[conv(x, np.float64) for x in args], **kw)
+    for k in want:
+        a, w = float(got[k]), float(want[k])
+        if not (a == w or (a != a and w != w) or (dt == np.dtype("float32") and abs(a - w) <= 1e-6)):
+            raise Violation("%s.evaluate[%r] = %r for %s arrays but %r for the same numbers in float64; case %r" % (task, k, a, dt, w, case))
+    ctx.event("dtype:" + str(dt))
+    return dt.kind in "iu"
+
+
 SUBPROPS = [
     SubProp("beat_f_cemgil_pscore", pred_beat_basic, strategy=beat_case, n=(1200, 30000), shards=(2, 8), floor=0.3,
             rule="NT = both sides non-empty and a score strictly between 0 and 1 or a beat exactly on the threshold"),
@@ -593,4 +654,6 @@ SUBPROPS = [
             rule="NT = 0 < pc or pcs < 1 or a deviation exactly equal to the window"),
     SubProp("pattern", pred_pattern, strategy=gt.pattern_case, n=(1000, 25000), shards=(4, 8), floor=0.3,
             rule="NT = an establishment/three-layer/standard F strictly between 0 and 1"),
+    SubProp("integer_typed_inputs", pred_int_typed, strategy=int_case, n=(400, 6000), shards=(2, 8), floor=0.4,
+            rule="whole-second / whole-Hz annotations of 12 task shapes in int64 / int32 / int16 / float32 arrays (signed only: unsigned arithmetic wraps by NumPy's own rules and is not a documented input) against the same numbers in float64; NT = an integer dtype"),
 ]
